@@ -15,7 +15,7 @@ type Env struct {
 	r         *Run
 	timers    []*Timer
 	listeners map[string]*Listener
-	conns     []*WSPair
+	pairs     []*WSConnPair
 	dialLog   []string
 	httpSrv   map[string]*HTTPMount
 }
@@ -32,6 +32,8 @@ type Timer struct {
 	fn     *Closure
 	fired  int
 	ticker bool
+	cell   *Value
+	resets []Value
 }
 
 func (t *Timer) String() string { return fmt.Sprintf("timer#%d", t.id) }
